@@ -14,7 +14,7 @@ the model runner prints `<compared>` only):
   SV m=.. kh= kq= kc= cx= ca= cq= cc= sq= mh= url=<template>  download -> SV <status> none|served:<k>
   INFLIGHT <fid> <kind> <n>     the fs handler's Upload (os.Create + StartUpload + copy) WITHOUT FinishUpload:
                                 an upload that is running / was abandoned          -> INFLIGHT ok
-  SYSLOAD / MEMBER <t> <owner> <u> <want> <given|-> / PUBX <sess> <as> <t|sys> <k|-> <tpls> / AGE <hours>
+  SYSLOAD / P2P <t> <u1> <u2> <want1> <want2> / MEMBER <t> <owner> <u> <want> <given|-> / PUBX <sess> <as> <t|sys> <k|-> <flags|-> <tpls> / AGE <hours>
                                 publishes with attachment lists by senders of every mode shape (write-only by want or
                                 by given, reader+writer, reader only, owner, root on behalf of another user, posts to
                                 'sys' without a subscription), the k-th adapter call of the request failing, ageing;
@@ -523,7 +523,9 @@ def sender_mode_cases_c16b(g, count, length):
     rng = g.rng
     g.add("SYSLOAD")
     npub = sum(1 for l in g.lines if l.startswith("PUB"))
+    g.starts_c16b = []
     for h in range(count):
+        g.starts_c16b.append(len(g.lines))          # each of these histories stands alone (users, uploads, topic of its own)
         base = g.nuser = max(g.nuser, 2) + 1
         a, b, c, o = base, base + 1, base + 2, base + 3
         g.nuser = base + 3
@@ -541,6 +543,16 @@ def sender_mode_cases_c16b(g, count, length):
             want, given = rng.choice(MODES_C16B[kind])
             shape[u] = kind
             g.add("MEMBER %d %d %d %s %s" % (t, owner, u, want, given))
+        # a p2p topic between two users of its own (kept: deleting a party has its own cascade)
+        p, q = g.nuser + 1, g.nuser + 2
+        g.nuser += 2
+        g.add("USER %d" % p)
+        g.add("USER %d" % q)
+        g.ntopic += 1
+        tp2p = g.ntopic
+        shape[p], shape[q] = rng.choice(["wonly", "wonly", "rw"]), rng.choice(["wonly", "rw", "ronly"])
+        p2pwant = {"wonly": ["JWP", "JW", "JWPA"], "rw": ["JRWPA", "JRWP"], "ronly": ["JRP", "JRPA"]}
+        g.add("P2P %d %d %d %s %s" % (tp2p, p, q, rng.choice(p2pwant[shape[p]]), rng.choice(p2pwant[shape[q]])))
         g.add("DUMP")
 
         likely = []          # uploads listed with a publish that is probably accepted: they stay when the GC has run
@@ -561,7 +573,7 @@ def sender_mode_cases_c16b(g, count, length):
             return str(rng.choice([1, 2, 3, 3, 4, 4])) if rng.random() < 0.12 else "-"
 
         # every shape at least once, then a random tail
-        script = [("self", u) for u in [owner] + members] + [("obo", rng.choice([a, b, c])), ("sys", rng.choice([a, b, c, o])),
+        script = [("p2p", p), ("p2p", q)] + [("self", u) for u in [owner] + members] + [("obo", rng.choice([a, b, c])), ("sys", rng.choice([a, b, c, o])),
                                                               ("sysobo", rng.choice([a, b, c, o])), ("gc", 0)]
         rng.shuffle(script)
         for step in range(length):
@@ -569,16 +581,19 @@ def sender_mode_cases_c16b(g, count, length):
                 what, u = script[step]
             else:
                 r = rng.random()
-                what, u = (("self", rng.choice([owner] + members)) if r < 0.40 else
+                what, u = (("p2p", rng.choice([p, q])) if r < 0.12 else
+                           ("self", rng.choice([owner] + members)) if r < 0.40 else
                            ("obo", rng.choice([a, b, c, o])) if r < 0.52 else
                            ("sys", rng.choice([a, b, c, o, 1])) if r < 0.66 else
                            ("sysobo", rng.choice([a, b, c, o])) if r < 0.72 else
                            ("up", 0) if r < 0.80 else ("delmsg", 0) if r < 0.86 else ("gc", 0))
-            if what in ("self", "obo", "sys", "sysobo"):
+            if what in ("self", "obo", "sys", "sysobo", "p2p"):
                 f = fault()
                 on_sys = what in ("sys", "sysobo")
                 ok = f == "-" and (on_sys or shape.get(u, "none") in ("owner", "wonly", "rw"))
-                g.add("PUBX %d %d %s %s %s" % (u if what in ("self", "sys") else 1, u, "sys" if on_sys else str(t), f, attachments(ok)))
+                g.add("PUBX %d %d %s %s %s %s" % (u if what in ("self", "sys", "p2p") else 1, u,
+                                                  "sys" if on_sys else str(tp2p if what == "p2p" else t), f,
+                                                  rng.choice(["-", "-", "-", "n", "h", "nh"]), attachments(ok)))
                 npub += 1
             elif what == "up":
                 files.append(g.inflight() if rng.random() < 0.15 else g.good_up(body="form:%d:1:1" % rng.choice([1300, 1800])))
@@ -1168,6 +1183,11 @@ def run(ctx):
         sql_only = "sql_case" in rp["replay"]
         lines = ["USER 1"] if sql_only else (rp["replay"].get("lines") or [rp["replay"]["case"]])
         g = None
+        if rp["replay"].get("names") is not None:
+            # which upload each URL template of the replayed lines names: the link laws are evaluated on the replay too
+            class NamesC16b:
+                names = rp["replay"]["names"]
+            g = NamesC16b()
     else:
         pure = list(dict.fromkeys(url_cases(ctx) + fa_cases(ctx)))
         g = Gen(ctx)
@@ -1198,9 +1218,29 @@ def run(ctx):
             maker[l.split()[1]] = l
     tpl_re = _re.compile(r"(?:^|\+)[fF](\d+)")
 
+    starts_c16b = [len(pure) + j for j in getattr(g, "starts_c16b", [])] if not ctx.replay else []
+
+    def with_names(rp):
+        """the upload each URL template of the replay names (None: names nothing), for the link laws"""
+        if g is not None:
+            nm = {}
+            for l in rp.get("lines", []):
+                if l.split(None, 1)[0] in ("PUB", "PUBX", "TAV", "UAV", "TOPIC", "NEWACC") and l.split()[-1] != "-":
+                    for t in l.split()[-1].split(","):
+                        nm[t] = g.names.get(t)
+            rp["names"] = nm
+        return rp
+
     def prefix(i):
         """replay of a stateful line = all stateful lines up to it"""
         k0 = lines[i].split(None, 1)[0]
+        s0 = max([j for j in starts_c16b if j <= i], default=None)
+        if s0 is not None:
+            # a sender-mode history: its own lines, up to the dump that follows the failing line
+            e = i
+            while e + 1 < len(lines) and lines[e] != "DUMP":
+                e += 1
+            return with_names({"case": lines[i], "lines": ["USER 1", "USER 2", "SYSLOAD"] + lines[s0:e + 1]})
         if k0 in ("CL", "ID"):
             return {"case": lines[i]}
         if k0 == "FA":
@@ -1213,7 +1253,7 @@ def run(ctx):
         n = bisect.bisect_right(stateful_idx, i)
         # setup (users, fixtures) + the tail; uploads made in the cut part are then unknown ids
         idx = stateful_idx[:n] if n <= 3060 else stateful_idx[:60] + stateful_idx[n - 3000:n]
-        return {"case": lines[i], "lines": [lines[j] for j in idx]}
+        return with_names({"case": lines[i], "lines": [lines[j] for j in idx]})
 
     fails = monitors(lines, impl) + (history_expectations(g, lines, impl) if g is not None else [])
     known = {f["key"] for f in ctx.load_findings() if f["property"] == ctx.pid}
@@ -1270,7 +1310,7 @@ def run(ctx):
         c = a.split(" |")[0].split()
         o = k + ":" + (" ".join(c[1:3]) if k in ("UP", "SV") else ("0" if c[1:] in (["0"], ["-"]) else "x") if k in ("ID", "FA") else "")
         outs[o] = outs.get(o, 0) + 1
-        if (k == "ID" and c[1] != "0") or (k in ("UP", "SV") and c[2] != "none") or k in ("PUB", "PUBX", "MEMBER", "TAV", "UAV", "NEWACC", "GC", "DELMSG", "DELTOPIC", "DELUSER", "INFLIGHT") \
+        if (k == "ID" and c[1] != "0") or (k in ("UP", "SV") and c[2] != "none") or k in ("PUB", "PUBX", "MEMBER", "P2P", "TAV", "UAV", "NEWACC", "GC", "DELMSG", "DELTOPIC", "DELUSER", "INFLIGHT") \
                 or (k == "FA" and c[1] == "1") or (k == "CL" and c[1] != l.split()[1]):
             nontrivial.add(l)
     ctx.coverage.update({
